@@ -216,6 +216,34 @@ theorem invD_reachable {g : Bool} {s : Sys} (hr : Reachable g s) : InvD s.sh := 
     · exact ih
     · exact invD_step ih he
 
+theorem recheck_step {sh sh' : Shared} {i push evs} (he : exec sh i = some (sh', push, evs)) :
+    sh'.recheck = sh.recheck := by
+  cases i <;> exec_split he <;> rfl
+
+theorem recheck_runSched {g : Bool} {sched : List Act} : ∀ {s s' : Sys}, runSched g s sched = some s' →
+    s'.sh.recheck = s.sh.recheck := by
+  induction sched with
+  | nil => intro s s' h; simp only [runSched, Option.some.injEq] at h; rw [h]
+  | cons a as ih =>
+    intro s s' h
+    simp only [runSched] at h
+    cases hs : sysStep g s a with
+    | none => rw [hs] at h; cases h
+    | some s1 =>
+      rw [hs] at h
+      rw [ih h]
+      rcases sysStep_cases hs with ⟨t, c, rfl, ht, _, rfl⟩ | ⟨t, i, rest, sh', push, evs, rfl, ht, he, _, rfl⟩
+      · rfl
+      · exact recheck_step he
+
+/-- Guarded, or the repaired `unRefExternal`, or not closed yet: finalisation is safe. -/
+theorem eff_of {g : Bool} {sh : Shared} (h : g = true ∨ sh.recheck = true ∨ sh.closed = false) :
+    Eff g sh = true ∨ sh.closed = false := by
+  rcases h with h | h | h
+  · exact Or.inl (by simp [Eff, h])
+  · exact Or.inl (by simp [Eff, h])
+  · exact Or.inr h
+
 theorem clearDel_runSched {g : Bool} {sched : List Act} : ∀ {s s' : Sys}, runSched g s sched = some s' →
     s'.sh.clearDel = s.sh.clearDel := by
   induction sched with
